@@ -179,6 +179,8 @@ class ComparisonH(Harness):
 CONDS = [  # (left index, op, right: ('p', index) | ('v', literal), left_cal, right_cal)
     (0, ">", ("p", 1), True, True), (1, "==", ("v", "5"), True, False), (2, "leq", ("p", 0), False, True), (0, "!=", ("v", "0"), False, False),
     (1, "&lt;", ("p", 2), True, False), (2, "geq", ("v", "-2"), True, False), (0, "eq", ("p", 2), True, True), (1, "&gt;=", ("p", 0), False, False),
+    # the same comparison with different value selectors (must not be confused with one another)
+    (2, "<", ("p", 0), True, True), (2, "<", ("p", 0), False, True), (2, "<", ("p", 0), True, False), (2, "==", ("v", "5"), True, False), (2, "==", ("v", "5"), False, False),
 ]
 
 
